@@ -68,11 +68,13 @@ EmptyRT == [table |-> <<>>, pend |-> <<>>]
 Drop(f, x) == [y \in DOMAIN f \ {x} |-> f[y]]
 
 \* counts are gossiped as decimal strings
+\* the decimal value of a published count (TLC's strings are atoms: the table is built with ToString)
+MaxPublishedCount == 3000
+CountTable == [i \in 0..MaxPublishedCount |-> ToString(i)]
 CountOf(s) ==
-  CASE s = "0" -> 0 [] s = "1" -> 1 [] s = "2" -> 2 [] s = "3" -> 3 [] s = "4" -> 4 [] s = "5" -> 5
-    [] s = "6" -> 6 [] s = "7" -> 7 [] s = "8" -> 8 [] s = "9" -> 9 [] s = "10" -> 10 [] s = "11" -> 11
-    [] s = "12" -> 12 [] OTHER -> -1
-
+  IF \E i \in 0..MaxPublishedCount : CountTable[i] = s
+  THEN CHOOSE i \in 0..MaxPublishedCount : CountTable[i] = s
+  ELSE -1
 SyncEv(r, e) ==
   LET inT == e.n \in DOMAIN r.table
       inP == e.n \in DOMAIN r.pend
